@@ -1,4 +1,5 @@
 import RQ.Lemmas.RefineStep
+import RQ.Lemmas.ApplySplit
 /-! Helper lemmas for C05, part 5: `applyOne` simulates `applyFP`. -/
 namespace RQ.Abs
 open RQ RQ.Push RQ.Spec RQ.Parse RQ.Write
@@ -25,14 +26,14 @@ theorem moveIn_some {self other r : FileSt Bytes} (h : moveIn self other = some 
     cases h
     exact ⟨by simpa using hc, rfl⟩
 
-theorem applyOne_ok_sim {fs : FS} {st st' : St} {t : ATree} {cfg : Cfg} {i : Nat} {entry : Series.Entry}
+theorem applyCore_ok_sim {fs : FS} {st st' : St} {t : ATree} {cfg : Cfg} {i : Nat} {entry : Series.Entry}
     {fp : PFilePatch} {b : Bool}
     (hs : SameTree fs (ofMem st.mem) t) (hde : MemDE st.mem) (hw : fp.WFlen)
-    (h : applyOne st fs cfg i entry fp = .ok (st', b)) :
+    (h : applyCore st fs cfg i entry fp = .ok (st', b)) :
     ∃ r, applyFP t fs cfg entry fp = .ok r ∧ b = r.ok ∧ SameTree fs (ofMem st'.mem) r.tree ∧ MemDE st'.mem ∧
       ∃ L, st'.applied = L ++ st.applied ∧ (∀ s ∈ L, s.index = i) ∧ Chain fs st.mem L st'.mem ∧
         rejsOf L = r.rej.toList := by
-  unfold applyOne at h
+  unfold applyCore at h
   split at h
   · cases h
   · rename_i hns
@@ -132,11 +133,11 @@ theorem applyOne_ok_sim {fs : FS} {st st' : St} {t : ATree} {cfg : Cfg} {i : Nat
                   patchName := entry.name, beforeRename := none }
                 hext1 hget1 hw happ rfl hren rfl
 
-theorem applyOne_err_sim {fs : FS} {st : St} {t : ATree} {cfg : Cfg} {i : Nat} {entry : Series.Entry}
+theorem applyCore_err_sim {fs : FS} {st : St} {t : ATree} {cfg : Cfg} {i : Nat} {entry : Series.Entry}
     {fp : PFilePatch} {e : Fail}
     (hs : SameTree fs (ofMem st.mem) t)
-    (h : applyOne st fs cfg i entry fp = .error e) : applyFP t fs cfg entry fp = .error e := by
-  unfold applyOne at h
+    (h : applyCore st fs cfg i entry fp = .error e) : applyFP t fs cfg entry fp = .error e := by
+  unfold applyCore at h
   split at h
   · rename_i hns
     have hns : namesSafe fp = false := by simpa using hns
@@ -200,5 +201,74 @@ theorem applyOne_err_sim {fs : FS} {st : St} {t : ATree} {cfg : Cfg} {i : Nat} {
             cases h
             exact applyFP_plain_none hns hchA hlook hren (apply_concr_none happ)
           · cases h
+
+/-! ### the pre-load of a renaming patch is invisible through `look` -/
+
+theorem preLoad_look {fs : FS} {m mem0 : Mem} {t : ATree} {fp : PFilePatch}
+    (hs : SameTree fs (ofMem m) t) (hde : MemDE m) (h : preLoad m fs fp = .ok mem0) :
+    SameTree fs (ofMem mem0) t ∧ Ext fs m mem0 ∧ MemDE mem0 := by
+  rcases preLoad_ok h with rfl | ⟨n, f, _, _, hl⟩
+  · exact ⟨hs, Ext.refl _ _, hde⟩
+  · obtain ⟨_, hs1, hext, _, hde1⟩ := getOrLoad_ok_look hs hl
+    exact ⟨hs1, hext, (hde1 hde).1⟩
+
+/-- a renaming patch whose new file cannot be loaded is refused by the abstract tree as well: either the
+file to patch cannot be loaded, or (the old file being emptied changes nothing about it) the new one -/
+theorem applyFP_new_look_err {t : ATree} {fs : FS} {cfg : Cfg} {entry : Series.Entry} {fp : PFilePatch}
+    {newName : Bytes} {u : Unit} (hns : namesSafe fp = true) (hren : fp.rename = true)
+    (hnew : fp.new = some newName) (hl : look t fs newName = .error u) :
+    applyFP t fs cfg entry fp = .error .err := by
+  cases hch : chooseA t fs fp.old fp.new with
+  | none =>
+    rw [hnew] at hch
+    cases hold : fp.old with
+    | none => rw [hold] at hch; cases hch
+    | some o =>
+      rw [hold, chooseA_some] at hch
+      split at hch
+      · cases hch
+      · split at hch <;> cases hch
+  | some target =>
+    cases hlt : look t fs target with
+    | error u' => exact applyFP_look_err hns hch hlt
+    | ok a =>
+      apply applyFP_ren_look_err (u := u) hns hch hlt hren hnew
+      rw [look_put]
+      split
+      · rename_i hk
+        have hk : components newName = components target := by simpa using hk
+        rw [look_congr t fs hk, hlt] at hl
+        cases hl
+      · exact hl
+
+theorem applyOne_ok_sim {fs : FS} {st st' : St} {t : ATree} {cfg : Cfg} {i : Nat} {entry : Series.Entry}
+    {fp : PFilePatch} {b : Bool}
+    (hs : SameTree fs (ofMem st.mem) t) (hde : MemDE st.mem) (hw : fp.WFlen)
+    (h : applyOne st fs cfg i entry fp = .ok (st', b)) :
+    ∃ r, applyFP t fs cfg entry fp = .ok r ∧ b = r.ok ∧ SameTree fs (ofMem st'.mem) r.tree ∧ MemDE st'.mem ∧
+      ∃ L, st'.applied = L ++ st.applied ∧ (∀ s ∈ L, s.index = i) ∧ Chain fs st.mem L st'.mem ∧
+        rejsOf L = r.rej.toList := by
+  obtain ⟨mem0, hp, hc⟩ := applyOne_ok_split h
+  obtain ⟨hs0, hext0, hde0⟩ := preLoad_look hs hde hp
+  obtain ⟨r, hr, hb, hs1, hde1, L, happ, hidx, hch, hrej⟩ :=
+    applyCore_ok_sim (st := { st with mem := mem0 }) hs0 hde0 hw hc
+  exact ⟨r, hr, hb, hs1, hde1, L, happ, hidx, Chain.ext_left hext0 hch, hrej⟩
+
+/-- `hrn`: a renaming patch has a new name (true of every parsed patch, `C11_wf`); without it the driver
+panics at once where the abstract tree may first fail to load the file to patch -/
+theorem applyOne_err_sim {fs : FS} {st : St} {t : ATree} {cfg : Cfg} {i : Nat} {entry : Series.Entry}
+    {fp : PFilePatch} {e : Fail}
+    (hs : SameTree fs (ofMem st.mem) t) (hde : MemDE st.mem) (hrn : fp.rename = true → fp.new.isSome)
+    (h : applyOne st fs cfg i entry fp = .error e) : applyFP t fs cfg entry fp = .error e := by
+  rcases applyOne_err_split h with ⟨hns, rfl⟩ | ⟨hns, hp⟩ | ⟨mem0, hp, hc⟩
+  · exact applyFP_unsafe hns
+  · obtain ⟨hren, ⟨hnew, _⟩ | ⟨n, hnew, hl⟩⟩ := preLoad_err hp
+    · have := hrn hren
+      rw [hnew] at this
+      cases this
+    · obtain ⟨rfl, u, hlk⟩ := getOrLoad_err_look hs hl
+      exact applyFP_new_look_err hns hren hnew hlk
+  · obtain ⟨hs0, _, _⟩ := preLoad_look hs hde hp
+    exact applyCore_err_sim (st := { st with mem := mem0 }) hs0 hc
 
 end RQ.Abs
